@@ -277,7 +277,8 @@ class Base(_BaseClass):
         """
         if token:
             # ("url(" may be written with escapes: r"\u\rl(")
-            value = token[1][token[1].find('(') + 1: - 1].strip()
+            # (CSS white space only: a no-break space belongs to the URL)
+            value = token[1][token[1].find('(') + 1: - 1].strip(' \t\r\n\f')
             if value and (value[0] in '\'"') and (value[0] == value[- 1]):
                 # a string "..." or '...'
                 value = value.replace('\\' + value[0], value[0])[1: - 1]
